@@ -233,6 +233,35 @@ class HistActor(object):
             s.new_process("restart")
             s.count("restarts")
             return
+        if kind == "ix_optimize":
+            # the index-level convenience call: opens a writer and commits with optimize=True
+            if self.w is not None:
+                return
+            ix = self.ensure_index()
+            self.mw = s.model.writer()
+            self.in_commit = True
+            if self.before_commit:
+                self.before_commit(self, "optimize")
+            self.pending_commit = (self.mw, False)
+            try:
+                ix.optimize()
+            except (SimAbort, SimKilled, HarnessError, Violation):
+                raise
+            except Exception as e:  # noqa
+                raise Violation("commit_raised", "ix.optimize() raised %s: %s" % (type(e).__name__, e),
+                                sig="commit_raised:" + exc_sig(e))
+            finally:
+                self.in_commit = False
+            self.apply_pending_commit()
+            self.mw = None
+            self.commits += 1
+            self.last_outcome = "commit"
+            self.last_commit_kind = "optimize"
+            s.count("commits")
+            s.count("ix_optimize")
+            if self.after_commit:
+                self.after_commit(self)
+            return
         if kind == "probe":
             if self.after_commit and self.w is None and self.ix is not None:
                 self.after_commit(self, probe_only=True)
